@@ -146,3 +146,47 @@ mut("c06-timeout-outside-lock-release", "C06", PROTO,
 mut("c06-awaiting-keyed-by-next-seq", "C06", PROTO,
     "            self._awaiting[self._seq] = (cmd_id, rx_schema, future)\n            self._seq = (self._seq + 1) % 256",
     "            self._seq = (self._seq + 1) % 256\n            self._awaiting[self._seq] = (cmd_id, rx_schema, future)", checks=["C06", "C07"])
+
+# ---- C15 -------------------------------------------------------------------------------
+MC = "bellows/multicast.py"
+APP = "bellows/zigbee/application.py"
+mut("c15-no-rollback-on-rejection", "C15", MC,
+    "                status,\n            )\n            self._available.add(idx)\n            return status[0]\n", "                status,\n            )\n            return status[0]\n")
+mut("c15-timeout-leaks-index", "C15", MC,
+    "        except Exception:\n            # The table write did not complete: the slot is still unused\n            self._available.add(idx)\n            raise",
+    "        except Exception:\n            raise")
+mut("c15-unsubscribe-forgets-on-rejection", "C15", MC,
+    "        entry.endpoint = t.uint8_t(0)\n        status = await self._ezsp.setMulticastTableEntry(idx, entry)\n",
+    "        entry.endpoint = t.uint8_t(0)\n        self._multicast.pop(group_id)\n        self._multicast[group_id] = (entry, idx)\n        status = await self._ezsp.setMulticastTableEntry(idx, entry)\n        self._multicast.pop(group_id, None)\n")
+mut("c15-unsubscribe-keeps-index", "C15", MC,
+    "        self._multicast.pop(group_id)\n        self._available.add(idx)\n", "        self._multicast.pop(group_id)\n")
+mut("c15-subscribe-twice-writes", "C15", MC,
+    "        if group_id in self._multicast:\n            LOGGER.debug(\"%s is already subscribed\", t.EmberMulticastId(group_id))\n            return t.sl_Status.OK\n", "")
+mut("c15-init-treats-empty-as-used", "C15", MC,
+    "            if entry.endpoint != 0:\n                self._multicast[entry.multicastId] = (entry, i)",
+    "            if entry.multicastId != 0 or entry.endpoint != 0:\n                self._multicast[entry.multicastId] = (entry, i)")
+
+# ---- C16 -------------------------------------------------------------------------------
+mut("c16-grow-only-strict-greater", "C16", EZ, "                and current_value >= cfg.value\n", "                and current_value > cfg.value + 4\n")
+mut("c16-grow-only-ignored", "C16", EZ, "                and cfg.minimum\n", "                and False\n")
+mut("c16-buffer-count-not-moved", "C16", EZ,
+    "            ezsp_config[\n                t.EzspConfigId.CONFIG_PACKET_BUFFER_COUNT.name\n            ] = ezsp_config.pop(t.EzspConfigId.CONFIG_PACKET_BUFFER_COUNT.name)", "            pass")
+mut("c16-rejection-aborts", "C16", EZ,
+    "                    \"Could not set config %s = %s: %s\",\n                    cfg.config_id,\n                    cfg.value,\n                    status,\n                )\n                continue",
+    "                    \"Could not set config %s = %s: %s\",\n                    cfg.config_id,\n                    cfg.value,\n                    status,\n                )\n                break")
+mut("c16-disabled-still-written", "C16", EZ,
+    "            if value is None:\n                ezsp_config.pop(name, None)\n                continue\n", "            if value is None:\n                continue\n")
+mut("c16-override-inherits-minimum", "C16", EZ,
+    "            ezsp_config[name] = RuntimeConfig(\n                config_id=t.EzspConfigId[name],\n                value=value,\n            )",
+    "            ezsp_config[name] = RuntimeConfig(\n                config_id=t.EzspConfigId[name],\n                value=value,\n                minimum=True,\n            )")
+mut("c16-source-route-table-not-minimum", "C16", "bellows/ezsp/config.py",
+    "        config_id=t.EzspConfigId.CONFIG_SOURCE_ROUTE_TABLE_SIZE,\n        value=200,\n        minimum=True,", "        config_id=t.EzspConfigId.CONFIG_SOURCE_ROUTE_TABLE_SIZE,\n        value=200,")
+
+# ---- C19 -------------------------------------------------------------------------------
+mut("c19-raise-one-early", "C19", APP, "            if self._watchdog_failures > MAX_WATCHDOG_FAILURES:", "            if self._watchdog_failures >= MAX_WATCHDOG_FAILURES:")
+mut("c19-no-reset-on-success", "C19", APP, "        else:\n            self._watchdog_failures = 0\n", "        else:\n            pass\n")
+mut("c19-v4-reads-counters", "C19", APP, "            if self._ezsp.ezsp_version == 4:\n                await self._ezsp.nop()", "            if self._ezsp.ezsp_version < 4:\n                await self._ezsp.nop()")
+mut("c19-clear-period-off-by-one", "C19", APP, "                if remainder > 0:\n                    current_counters = await self._ezsp.read_counters()", "                if remainder > 1:\n                    current_counters = await self._ezsp.read_counters()")
+mut("c19-ezsp-error-not-counted", "C19", APP, "        except (asyncio.TimeoutError, EzspError) as exc:", "        except asyncio.TimeoutError as exc:")
+mut("c19-reset-in-finally", "C19", APP, "            self._watchdog_failures += 1\n            if self._watchdog_failures > MAX_WATCHDOG_FAILURES:\n                self.state.counters[COUNTERS_CTRL][COUNTER_WATCHDOG].increment()\n                raise",
+    "            self._watchdog_failures += 1\n            if self._watchdog_failures > MAX_WATCHDOG_FAILURES:\n                self.state.counters[COUNTERS_CTRL][COUNTER_WATCHDOG].increment()\n                self._watchdog_failures = 0\n                raise")
